@@ -64,6 +64,15 @@ type blobAccessMutableProtoStore[T any, TProto interface {
 	lock           sync.Mutex
 	handles        map[digest.Digest]*blobAccessMutableProtoHandle[T, TProto]
 	handlesToWrite []*blobAccessMutableProtoHandle[T, TProto]
+
+	// The number of calls to Get() per digest that are currently
+	// reading the message from storage, because no handle existed
+	// when they started. Handles for these digests that are created
+	// in the meantime must not be discarded until these calls
+	// complete. Otherwise such a call could end up creating a
+	// handle from a message that it read before a newer version of
+	// it got written.
+	readsInProgress map[digest.Digest]int
 }
 
 // NewBlobAccessMutableProtoStore creates an instance of
@@ -91,6 +100,22 @@ func NewBlobAccessMutableProtoStore[T any, TProto interface {
 		initialSizeClassCache:   initialSizeClassCache,
 		maximumMessageSizeBytes: maximumMessageSizeBytes,
 		handles:                 map[digest.Digest]*blobAccessMutableProtoHandle[T, TProto]{},
+		readsInProgress:         map[digest.Digest]int{},
+	}
+}
+
+// finishReadLocked is called by Get() once it no longer depends on the
+// message that it read from storage. If a handle that was created in
+// the meantime was kept alive just for this call, it is discarded or
+// queued for writing.
+func (ss *blobAccessMutableProtoStore[T, TProto]) finishReadLocked(reducedActionDigest digest.Digest) {
+	if ss.readsInProgress[reducedActionDigest] > 1 {
+		ss.readsInProgress[reducedActionDigest]--
+		return
+	}
+	delete(ss.readsInProgress, reducedActionDigest)
+	if handle, ok := ss.handles[reducedActionDigest]; ok {
+		handle.removeOrQueueForWriteLocked()
 	}
 }
 
@@ -114,6 +139,8 @@ func (ss *blobAccessMutableProtoStore[T, TProto]) Get(ctx context.Context, reduc
 	handleToReturn, hasExistingHandle := ss.handles[reducedActionDigest]
 	if hasExistingHandle {
 		handleToReturn.increaseUseCount()
+	} else {
+		ss.readsInProgress[reducedActionDigest]++
 	}
 
 	// Extract a couple of handles from previous actions that we can
@@ -185,6 +212,8 @@ func (ss *blobAccessMutableProtoStore[T, TProto]) Get(ctx context.Context, reduc
 		ss.lock.Lock()
 		if hasExistingHandle {
 			handleToReturn.decreaseUseCount()
+		} else {
+			ss.finishReadLocked(reducedActionDigest)
 		}
 		ss.lock.Unlock()
 		return nil, err
@@ -202,6 +231,7 @@ func (ss *blobAccessMutableProtoStore[T, TProto]) Get(ctx context.Context, reduc
 			ss.handles[reducedActionDigest] = handleToReturn
 			blobAccessMutableProtoHandlesCreated.Inc()
 		}
+		ss.finishReadLocked(reducedActionDigest)
 		ss.lock.Unlock()
 	}
 	return handleToReturn, nil
@@ -273,9 +303,13 @@ func (sh *blobAccessMutableProtoHandle[T, TProto]) removeOrQueueForWriteLocked()
 		ss := sh.store
 		if sh.writtenVersion == sh.currentVersion {
 			// No changes were made to the message. Simply
-			// discard this handle.
-			delete(ss.handles, sh.digest)
-			blobAccessMutableProtoHandlesDestroyed.Inc()
+			// discard this handle, unless a call to Get()
+			// that is still reading the message from
+			// storage needs to pick it up.
+			if ss.readsInProgress[sh.digest] == 0 {
+				delete(ss.handles, sh.digest)
+				blobAccessMutableProtoHandlesDestroyed.Inc()
+			}
 		} else if sh.handlesToWriteIndex < 0 {
 			// Changes were made and we're not queued. Place
 			// handle in the queue.
